@@ -76,10 +76,10 @@ char* list_string_pop(List_string *list) {
 }
 
 /* Insert an element at the specified index */
-void list_string_insert(List_string *list, int index, const char *value) {
+void list_string_insert(List_string *list, int64_t index, const char *value) {
     if (index < 0 || index > list->length) {
-        fprintf(stderr, "Error: Index %d out of bounds for list of length %d\n", 
-                index, list->length);
+        fprintf(stderr, "Error: Index %lld out of bounds for list of length %d\n", 
+                (long long)index, list->length);
         exit(1);
     }
     
@@ -94,10 +94,10 @@ void list_string_insert(List_string *list, int index, const char *value) {
 }
 
 /* Remove and return the element at the specified index */
-char* list_string_remove(List_string *list, int index) {
+char* list_string_remove(List_string *list, int64_t index) {
     if (index < 0 || index >= list->length) {
-        fprintf(stderr, "Error: Index %d out of bounds for list of length %d\n", 
-                index, list->length);
+        fprintf(stderr, "Error: Index %lld out of bounds for list of length %d\n", 
+                (long long)index, list->length);
         exit(1);
     }
     
@@ -112,10 +112,10 @@ char* list_string_remove(List_string *list, int index) {
 }
 
 /* Set the value at the specified index */
-void list_string_set(List_string *list, int index, const char *value) {
+void list_string_set(List_string *list, int64_t index, const char *value) {
     if (index < 0 || index >= list->length) {
-        fprintf(stderr, "Error: Index %d out of bounds for list of length %d\n", 
-                index, list->length);
+        fprintf(stderr, "Error: Index %lld out of bounds for list of length %d\n", 
+                (long long)index, list->length);
         exit(1);
     }
     
@@ -125,10 +125,10 @@ void list_string_set(List_string *list, int index, const char *value) {
 }
 
 /* Get the value at the specified index */
-char* list_string_get(List_string *list, int index) {
+char* list_string_get(List_string *list, int64_t index) {
     if (index < 0 || index >= list->length) {
-        fprintf(stderr, "Error: Index %d out of bounds for list of length %d\n", 
-                index, list->length);
+        fprintf(stderr, "Error: Index %lld out of bounds for list of length %d\n", 
+                (long long)index, list->length);
         exit(1);
     }
     
